@@ -156,10 +156,11 @@ DEFAULT_RULES = [
     ("local-static-const", r"\bstatic const\b(?= (?:u?int\d+_t|size_t|int|char) \w+ =)", "const"),
     ("auto-cast", r"\bauto (\w+) = \(([^()]+)\)\(", r"\2 \1 = (\2)("),
     ("nullptr", r"\bnullptr\b", "NULL"),
-    # a label directly in front of a loop header gets an empty statement, so that a backward goto to
-    # the label and the loop's own back-edge have different targets (CBMC merges back-edges that
-    # share a target and then silently drops the loop contract). Pure addition, no semantics.
-    ("label-before-loop", r"(?m)^(\s*\w+):[ \t]*\n(\s*)(while|for|do)\b", r"\1: ;\n\2\3"),
+    # every label on a line of its own gets an empty statement: (a) C (unlike C++) does not allow a
+    # declaration right after a label; (b) a backward goto to a label in front of a loop header and the
+    # loop's own back-edge then have different targets (CBMC merges back-edges that share a target and
+    # silently drops the loop contract). Pure addition, no semantics.
+    ("label-empty-stmt", r"(?m)^(\s*(?!default\b)\w+):[ \t]*$", r"\1: ;"),
     ("noexcept", r"\bnoexcept\b", ""),
 ]
 
@@ -228,7 +229,7 @@ def slice_unit(name, u, outdir, manifest):
     line = src.count("\n", 0, start) + 1
     kind = u.get("kind", "func")
     fired = {}
-    rules = ([] if u.get("no_default_rules") else DEFAULT_RULES) + list(u.get("rules", []))
+    rules = ([] if u.get("no_default_rules") else DEFAULT_RULES) + list(u.get("rules", [])) + list(u.get("rules_post", []))
     pre, post = "", ""
 
     if kind in ("table", "struct", "enum"):
